@@ -262,14 +262,15 @@ func (k Keeper) UpdateDispute(
 		} else {
 			result = types.VoteResult_NO_QUORUM_MAJORITY_AGAINST
 		}
-	case scaledInvalid.GT(scaledSupport) && scaledInvalid.GT(scaledAgainst):
+	default:
+		// invalid has the strict majority, or no choice has one (a tie): a tied vote cannot
+		// decide for or against the reporter, so it is recorded as invalid rather than
+		// returning an error, which would fail the begin blocker once the vote period ended
 		if quorum {
 			result = types.VoteResult_INVALID
 		} else {
 			result = types.VoteResult_NO_QUORUM_MAJORITY_INVALID
 		}
-	default:
-		return errors.New("no majority")
 	}
 	vote.VoteResult = result
 	vote.VoteEnd = sdk.UnwrapSDKContext(ctx).BlockTime()
